@@ -96,6 +96,33 @@ class EnumModel:
     q: EnumB
 
 
+# models whose defaults are EQUAL but not identical (False == 0 == 0.0, True == 1, hash-equal too): whatever a retort remembers
+# about a default (omit_default sieves, rendered literals) under a key compared by equality is confused by them
+@dataclasses.dataclass
+class DefF:
+    flag: bool = False
+
+
+@dataclasses.dataclass
+class Def0:
+    n: int = 0
+
+
+@dataclasses.dataclass
+class Def0f:
+    x: float = 0.0
+
+
+@dataclasses.dataclass
+class DefT:
+    flag: bool = True
+
+
+@dataclasses.dataclass
+class Def1:
+    n: int = 1
+
+
 @dataclasses.dataclass
 class A1:
     x: int
@@ -214,6 +241,7 @@ POOL: Dict[str, Any] = {
     "DictStrInt": Dict[str, int], "dict": dict, "DictStrBool": Dict[str, bool],
     "EnumA": EnumA, "EnumB": EnumB, "EnumModel": EnumModel, "ListEnumB": List[EnumB],
     "PropA": PropA, "PropB": PropB,
+    "DefF": DefF, "Def0": Def0, "Def0f": Def0f, "DefT": DefT, "Def1": Def1,
 }
 CONFUSABLE_GROUPS = [
     {"Lit01", "LitFT", "Lit0", "LitF", "Lit1T", "OptLit0", "OptLitF"}, {"ListLit01", "ListLitFT"}, {"TupLit1T", "TupLitT1"},
@@ -222,7 +250,7 @@ CONFUSABLE_GROUPS = [
     {"A1", "A2", "A1Twin", "NT1"}, {"ListA1", "ListA2"}, {"Id1", "Id2"}, {"ListId1", "ListId2"}, {"AnnIntA", "AnnIntB", "int"},
     {"Node", "ListNode"}, {"MA", "MB"}, {"RNode", "Wrap", "HasUnloadable", "Unloadable", "ListUnloadable"},
     {"DictStrInt", "dict", "DictStrBool"}, {"EnumA", "EnumB", "EnumModel", "ListEnumB"},
-    {"PropA", "PropB"},
+    {"PropA", "PropB"}, {"DefF", "Def0", "Def0f", "DefT", "Def1"},
 ]
 GROUP_OF = {name: i for i, g in enumerate(CONFUSABLE_GROUPS) for name in g}
 
@@ -240,6 +268,7 @@ DUMP_VALUES = {
     "A1Twin": lambda: A1Twin("s"), "Wrap": lambda: Wrap(RNode(1, (None, Unloadable()))),
     "EnumA": lambda: EnumA.RED, "EnumB": lambda: EnumB.BIG, "EnumModel": lambda: EnumModel(EnumA.BLUE, EnumB.SMALL),
     "ListEnumB": lambda: [EnumB.SMALL], "PropA": lambda: PropA(3), "PropB": lambda: PropB(3),
+    "DefF": DefF, "Def0": Def0, "Def0f": Def0f, "DefT": DefT, "Def1": Def1,   # instances holding exactly the defaults
 }
 
 
@@ -266,6 +295,7 @@ RECIPES = {
     "enum_names_field_and_type": lambda: [adaptix.enum_by_name(P[EnumModel].p, EnumB, "nope")],
     # one provider serving two classes whose same-named properties have different return annotations (int / Decimal)
     "with_property_two_classes": lambda: [adaptix.with_property(P[PropA, PropB], "area")],
+    "omit_default": lambda: [name_mapping(omit_default=True)],
 }
 CONV_PAIRS = {"A1->A2": (A1, A2), "A1->Dst1": (A1, Dst1), "A2->Dst1": (A2, Dst1), "A1->DstOpt": (A1, DstOpt),
               "A1->DstBad": (A1, DstBad), "A1Twin->Dst1": (A1Twin, Dst1), "NT1->A1": (NT1, A1), "A2->A1": (A2, A1),
@@ -642,7 +672,10 @@ SCENARIOS = [
        "history": [{"op": "dump", "t": a, "d": 0, "r": "warm", "also": b}, {"op": "load", "t": b, "d": 0, "r": "warm", "also": a}]}
       for rec, pairs in (("with_property_two_classes", [("PropA", "PropB"), ("PropB", "PropA")]),
                          ("enum_names_multi", [("EnumA", "EnumB"), ("EnumB", "EnumA"), ("EnumModel", "EnumA")]),
-                         ("enum_names_field_and_type", [("EnumModel", "EnumB"), ("EnumB", "EnumModel")]))
+                         ("enum_names_field_and_type", [("EnumModel", "EnumB"), ("EnumB", "EnumModel")]),
+                         ("omit_default", [("DefF", "Def0"), ("Def0", "DefF"), ("DefT", "Def1"), ("Def1", "DefT"), ("DefF", "Def0f"),
+                                           ("Def0f", "Def0")]),
+                         ("none", [("DefF", "Def0"), ("Def1", "DefT")]))
       for a, b in pairs for dbg in (0, 2)],
     # replace() with a single option after the parent has served the type
     *[{"init": {"recipe": "none", "strict": False, "debug": 2},
